@@ -24,7 +24,7 @@ from .cdef import Contract, LoopSpec  # noqa: E402,F401
 
 SPEC_PRIM_NAMES = {'be', 'le', 'sl', 'cat', 'low', 'shr', 'pow2', 'tb', 'tl', 'bat', 'rpow', 'rpow2', 'bfind',
                    'band', 'bor', 'at', 'toreal', 'is_int_valued', 'decode', 'decodable', 'has_key', 'pv',
-                   'kind_of', 'raw_of', 'val_of', 'keys_of', 'append', 'cls_is', 'warned', 'i2r', 'src_T', 'src_R', 'coerce_like', 'coercible', 'comparable', 'cap', 'mset', 'mdel', 'events', 'events0', 'lcat'}
+                   'kind_of', 'raw_of', 'val_of', 'keys_of', 'append', 'cls_is', 'warned', 'i2r', 'src_T', 'src_R', 'coerce_like', 'coercible', 'comparable', 'cap', 'mset', 'mdel', 'events', 'events0', 'lcat', 'kind_is'}
 
 
 class Registry:
@@ -507,6 +507,10 @@ def coerce_arg(I, v, ty, node, what):
             if v.cls in TY.PVAL_KINDS:
                 names = [k if isinstance(k, str) else k[0] for k in ty[1]]
                 return v if v.cls in names else None
+            return None
+        if ty[0] == 'source':
+            if v.kind == 'ext' and v.t == 'source' and (v.extra or {}).get('source_kind') == ty[1]:
+                return v
             return None
         if ty[0] in ('ext', 'func', 'cls', 'clsref'):
             return v
